@@ -15,14 +15,18 @@
      COrder  the in-flow paragraphs of a document in the order their lines appear
              over the pages: must be the document order, each paragraph in one piece
      CUnits  C12 stream: the content-unit ids over the pages = 0 .. n-1
+             Also evaluated on every CWs case: the two statements of Properties/C02.v that are
+             proved only in part (idempotence with pre-line texts, the pre-line specification):
+             a generated counterexample would be reported (code 7)
      CDraw   one page: the text boxes laid out on it (visible?, text) and the
              DrawText calls the recording backend received for it: one call per
              visible non-blank text box, same text (up to trailing spaces)
 
    codes: 0 agree; 1 CWs differs from the model; 3 a character lost / duplicated /
    reordered / invented in a paragraph; 4 paragraphs out of order or split;
-   5 units not conserved; 6 text boxes and DrawText calls do not match. *)
-From Verif Require Export Css.Whitespace.
+   5 units not conserved; 6 text boxes and DrawText calls do not match;
+   7 an unproved statement (pw_idempotent_statement / whitespace_spec_preline_statement) fails. *)
+From Verif Require Export Css.Whitespace Css.WhitespaceSpec Layout.TextDraw.
 From Coq Require Import List NArith Bool Arith.
 Import ListNotations.
 
@@ -83,15 +87,12 @@ Fixpoint match_para (fuel : nat) (at_edge : bool) (e : list (N * ekind)) (o : li
       | (c, EChar) :: _, ONL :: o' => match_para f true e o'
       | (c, EChar) :: _, [] => false
       | (_, ESpace) :: e', OC c' :: o' =>
-          if N.eqb c' SP then match_para f false e' o'
-          else at_edge && match_para f at_edge e' o
+          (* the space is there, or it was dropped at the edge of a line (the observed
+             space may then be a preserved one that follows) *)
+          (N.eqb c' SP && match_para f false e' o') || (at_edge && match_para f at_edge e' o)
       | (_, ESpace) :: e', ONL :: o' =>
-          (* a space before a forced break / the end sits at this line's end: dropped here;
-             otherwise decide after the boundary *)
-          match e' with
-          | [] | (_, EBreak) :: _ => match_para f true e' o
-          | _ => match_para f true e o'
-          end
+          (* dropped at the end of this line, or it is (or is dropped) after the boundary *)
+          match_para f true e' o || match_para f true e o'
       | (_, ESpace) :: e', [] => match_para f true e' []
       | (_, EBreak) :: e', ONL :: o' => match_para f true e' o'
       | (_, EBreak) :: e', [] => match_para f true e' []
@@ -124,14 +125,6 @@ Fixpoint rstrip_rev (r : list N) : list N :=
   end.
 Definition rstrip (l : list N) : list N := rev (rstrip_rev (rev l)).
 
-Definition is_space_char (c : N) : bool :=
-  N.eqb c 32 || N.eqb c 9 || N.eqb c 10 || N.eqb c 13 || N.eqb c 11 || N.eqb c 12 ||
-  N.eqb c 133 || N.eqb c 160 || N.eqb c 5760 || ((8192 <=? c) && (c <=? 8202))%N ||
-  N.eqb c 8232 || N.eqb c 8233 || N.eqb c 8239 || N.eqb c 8287 || N.eqb c 12288.
-
-(* draw.go:1586 strings.TrimSpace(text) == "" : not drawn *)
-Definition all_space (l : list N) : bool := forallb is_space_char l.
-
 Fixpoint remove_first (x : list N) (l : list (list N)) : option (list (list N)) :=
   match l with
   | [] => None
@@ -145,16 +138,25 @@ Fixpoint is_perm (a b : list (list N)) : bool :=
   | x :: r => match remove_first x b with Some b' => is_perm r b' | None => false end
   end.
 
-(* the model of drawText / drawFirstLine (draw.go:1550-1593): one DrawText per
-   visible text box whose text is not only white space *)
+(* the model of drawText / drawFirstLine (Layout/TextDraw.v): one DrawText per
+   visible text box whose text is not only white space; compared up to trailing
+   spaces (the text layout keeps a trailing collapsible space the box text lost) *)
 Definition expected_draws (boxes : list (bool * list N)) : list (list N) :=
-  map (fun b => rstrip (snd b)) (filter (fun b => fst b && negb (all_space (snd b))) boxes).
+  map rstrip (draw_events (PBox (map (fun b => PText (fst b) true (snd b)) boxes))).
 
 Definition check (c : case) : N :=
   match c with
   | CWs f src out f' =>
       let '(b, g) := pw f src in
-      if lists_eqb (map snd (texts b)) out && Bool.eqb g f' then 0%N else 1%N
+      if negb (lists_eqb (map snd (texts b)) out && Bool.eqb g f') then 1%N
+      else
+        let '(b2, g2) := pw f b in
+        if lists_eqb (map snd (texts b2)) (map snd (texts b)) && Bool.eqb g2 g &&
+           forallb (fun mt => match fst mt with
+                              | WPreLine => runes_eqb (core WPreLine (snd mt)) (preline_spec (snd mt))
+                              | _ => true
+                              end) (texts src)
+        then 0%N else 7%N
   | CPara src lines => if check_para src lines then 0%N else 3%N
   | COrder n ids => if order_ok (N.to_nat n) 0 (map N.to_nat ids) then 0%N else 4%N
   | CUnits n ids =>
